@@ -370,7 +370,7 @@ def check_c07(ctx, prog, I, modes):
     check_setup_actions(ctx, prog, I)
 
 
-def check_has_move(ctx, prog, quick=True):
+def check_has_move(ctx, prog, quick=True, tables=True):
     """C07.2 with wide truth tables (K = 10) so that Boolean equivalence is decided exactly."""
     ctx.rule('C07.2a', 'has_non_passing_like_action(L) is true exactly when remove_passing_like_actions leaves L non-empty '
                        '(same activation table over step x captured, same per-action test), decided by truth table')
@@ -414,7 +414,7 @@ def check_has_move(ctx, prog, quick=True):
         # ---- has_move against the offered list, as exact local tables (independent of how has_move is written)
         B.K = oldK
         from . import rules_local
-        lt_ok = rules_local.check_hasmove_tables(ctx, prog, quick)
+        lt_ok = rules_local.check_hasmove_tables(ctx, prog, quick) if tables else False
         B.K = 10
         # ---- has_move structure with the per-list test stubbed by atoms
         fh = prog.one('GameState::has_move')
@@ -584,7 +584,18 @@ def check_setup_actions(ctx, prog, I):
                     limit, bv = k.uval(), t.args[0]
             want = G.FULL_COMPLEMENT[p]
             okl = limit == want
-            okb = bv is not None and all(set(mover_lits(gold, i)) | {((TYPE_VAR[p], i), True)} <= B.must(bv.bits[i]) for i in range(64))
+            okb = bv is not None and bv.w == 64 and all(set(mover_lits(gold, i)) | {((TYPE_VAR[p], i), True)} <= B.must(bv.bits[i]) for i in range(64))
+            if bv is not None and not okb:
+                # alternatively the count may run over the mover's sixteen home squares: during setup every piece of a side stands
+                # on that side's home ranks (C09 placement clauses), so the window holds exactly the mover's pieces
+                home = set(G.HOME_SQUARES[gold]) if hasattr(G, 'HOME_SQUARES') else set(range(48, 64) if gold else range(0, 16))
+                counted = []
+                for b_ in bv.bits:
+                    if b_ is C0:
+                        continue
+                    sq = [v_[1] for (v_, pol) in B.must(b_) if pol and v_[0] == TYPE_VAR[p]]
+                    counted.append(sq[0] if len(sq) == 1 and B.rawvars(b_) <= {(TYPE_VAR[p], sq[0]), ('p1', sq[0]), ('all', sq[0])} else None)
+                okb = None not in counted and len(counted) == len(set(counted)) and set(counted) == home
             ctx.ob('[%s setup] Place(%s) offered while fewer than %d of the mover\'s %ss are placed' % (side, p, want, p), okl and okb,
                    sample=(p == 'Horse'))
             if not okl:
